@@ -465,6 +465,54 @@ fn gen_sweep_directed(rng: &mut vh::Rng) -> (Poly, Option<f32>, u64) {
     }
 }
 
+/// Near-lattice polygons with ulp-sized perturbations plus a nearly retraced twin (growth task ga-c01):
+/// the input class on which the merge-vertex fix-up of `sort_active_edges` runs off the front of the
+/// active list (finding C01-sort-active-edges-merge-underflow).  One case in 16 is the stored witness
+/// itself (default `FillOptions`: even-odd, vertical, tolerance 0.1, intersections handled).
+fn gen_ulp_twin(rng: &mut vh::Rng) -> (Poly, Option<f32>, Option<FillCfg>) {
+    use lyon_path::math::point;
+    let fb = |b: u32| f32::from_bits(b);
+    if rng.chance(1, 16) {
+        let a: [(u32, u32); 7] = [
+            (0xbec49ba6, 0x3f03126f), (0xbec49ba6, 0x3e03126e), (0xbe03126f, 0x3ec49ba4), (0xbe03126f, 0x3f03126e),
+            (0xbec49ba7, 0x3ec49ba6), (0xbe03126f, 0x3ec49ba8), (0xbe03126f, 0x3e83126f),
+        ];
+        let b: [(u32, u32); 8] = [
+            (0xbe031270, 0x3e83126f), (0xbe031270, 0x3ec49ba7), (0xbec49ba6, 0x3ec49ba5), (0xbe03126e, 0x3f03126e),
+            (0xbec49ba7, 0x3f031272), (0xbe03126f, 0x3ec49ba5), (0xbec49ba7, 0x3e03126f), (0xbec49ba6, 0x3f03126f),
+        ];
+        let subs = vec![
+            (a.iter().map(|p| point(fb(p.0), fb(p.1))).collect(), false),
+            (b.iter().map(|p| point(fb(p.0), fb(p.1))).collect(), false),
+        ];
+        let cfg = FillCfg { rule: lyon_tessellation::FillRule::EvenOdd, orientation: lyon_tessellation::Orientation::Vertical, tolerance: 0.1, entry: rng.below(5) as usize };
+        return (Poly { subs, kind: "ulp-twin-witness" }, None, Some(cfg));
+    }
+    let nudge = |rng: &mut vh::Rng, v: f32, span: i64| -> f32 {
+        if v == 0.0 {
+            return v;
+        }
+        let d = if rng.chance(1, 2) { 0 } else { rng.range(-span, span) };
+        f32::from_bits((v.to_bits() as i64 + d) as u32)
+    };
+    let m = *rng.pick(&[2i64, 3, 3, 4]);
+    let n = rng.range(3, 8) as usize;
+    let sc = *rng.pick(&[1.0f32, 1.0, 0.001, 0.125, 128.0, 1024.0]);
+    let base: Vec<Point> = (0..n).map(|_| point((rng.range(0, m) as f32 + 1.0) * sc, (rng.range(0, m) as f32 + 1.0) * sc)).collect();
+    let first: Vec<Point> = base.iter().map(|p| point(nudge(rng, p.x, 2), nudge(rng, p.y, 3))).collect();
+    let mut subs = vec![(first.clone(), rng.chance(1, 2))];
+    if rng.chance(2, 3) {
+        let mut twin: Vec<Point> = first.iter().map(|p| point(nudge(rng, p.x, 1), nudge(rng, p.y, 1))).collect();
+        twin.reverse();
+        if rng.chance(1, 2) {
+            twin.push(base[0]);
+        }
+        subs.push((twin, rng.chance(1, 2)));
+    }
+    let tol = *rng.pick(&[0.0001f32, 0.001, 0.01, 0.1, 1.0]) * sc;
+    (Poly { subs, kind: "ulp-twin" }, Some(tol), None)
+}
+
 /// does the real tessellator return (Ok or Err, no panic) within two seconds on this input?
 /// Used only to screen NON-FINITE inputs; a hung run is left behind in its thread.
 fn returns_in_time(poly: &Poly, cfg: &FillCfg, handle_ix: bool) -> bool {
@@ -484,11 +532,17 @@ fn returns_in_time(poly: &Poly, cfg: &FillCfg, handle_ix: bool) -> bool {
     matches!(rx.recv_timeout(std::time::Duration::from_secs(2)), Ok(true))
 }
 
-fn sweep_case(ctx: &mut Ctx, max_edges: usize, directed: bool) {
+fn sweep_case(ctx: &mut Ctx, max_edges: usize, directed: bool, twin: bool) {
     ctx.case("sweep:32", |rng| {
         let mut tol_override: Option<f32> = None;
         let mut noix_num = 0u64;
-        let poly = if directed {
+        let mut cfg_override: Option<FillCfg> = None;
+        let poly = if twin {
+            let (p, tol, cfg) = gen_ulp_twin(rng);
+            tol_override = tol;
+            cfg_override = cfg;
+            p
+        } else if directed {
             let (p, tol, noix) = gen_sweep_directed(rng);
             tol_override = tol;
             noix_num = noix;
@@ -515,10 +569,15 @@ fn sweep_case(ctx: &mut Ctx, max_edges: usize, directed: bool) {
         if let Some(t) = tol_override {
             cfg.tolerance = t;
         }
+        if let Some(c) = cfg_override {
+            cfg = c;
+        }
         // one case in eight (one in three of the stress inputs) runs with `handle_intersections = false`
         // (the error-recovery paths); the directed inputs choose their own share
         let stress = matches!(poly.kind, "near-level" | "big-coords" | "overlap-many" | "near-coincident" | "comb" | "small-lattice");
-        let handle_ix = if directed {
+        let handle_ix = if twin {
+            true
+        } else if directed {
             !rng.chance(noix_num, 8)
         } else if stress {
             !rng.chance(1, 3)
@@ -552,12 +611,19 @@ fn sweep_case(ctx: &mut Ctx, max_edges: usize, directed: bool) {
         (args, tag, move || {
             let mut tess = FillTessellator::new();
             let mut log = SweepLog::default();
-            let res = vh::guarded(|| run_fill_log(&mut tess, &poly, &cfg, handle_ix, &mut log));
+            let res = std::panic::catch_unwind(std::panic::AssertUnwindSafe(|| run_fill_log(&mut tess, &poly, &cfg, handle_ix, &mut log)));
             let mut o = Out::new();
             let mut orc = Oracle::new();
             let res = match res {
-                Some(r) => r,
-                None => {
+                Ok(r) => r,
+                Err(payload) => {
+                    let msg: String = if let Some(m) = payload.downcast_ref::<String>() {
+                        m.clone()
+                    } else if let Some(m) = payload.downcast_ref::<&str>() {
+                        m.to_string()
+                    } else {
+                        String::new()
+                    };
                     // a panic is a modelled outcome (overflow / index / assert branches of the model).
                     // With `handle_intersections = false` on an input that does intersect the caller broke
                     // the option's precondition: recorded, not a finding. Otherwise it is one.
@@ -565,7 +631,11 @@ fn sweep_case(ctx: &mut Ctx, max_edges: usize, directed: bool) {
                     if poly.kind == "nonfinite" {
                         orc.skip("nonfinite-input");
                     } else if handle_ix {
-                        orc.check(false, "sweep/no-panic", "generic", || "FillTessellator panicked on finite polygonal input".into());
+                        // the only integer subtraction of fill.rs that is not proved safe (Props/C01b.lean) is
+                        // `idx - 1` in the merge-vertex fix-up of `sort_active_edges`: a narrow class of its own
+                        // (finding C01-sort-active-edges-merge-underflow); every other panic stays `generic`
+                        let class = if msg.contains("subtract with overflow") { "sort-active-edges-underflow" } else { "generic" };
+                        orc.check(false, "sweep/no-panic", class, || format!("FillTessellator panicked on finite polygonal input: {}", msg));
                     } else {
                         orc.skip("noix-precondition-violated");
                     }
@@ -1153,7 +1223,7 @@ fn main() {
     // the sweep model tie (ids after the chk_fill cases, so those keep their ids)
     let n = ctx.n(1500, 50000);
     for _ in 0..n {
-        sweep_case(&mut ctx, 24, false);
+        sweep_case(&mut ctx, 24, false, false);
     }
     // the same tie on curved input (ids after the sweep cases)
     let n = ctx.n(1500, 50000);
@@ -1163,7 +1233,12 @@ fn main() {
     // directed inputs for the rarely taken branches of the sweep (polygonal, family `sweep:32`)
     let n = ctx.n(1000, 50000);
     for _ in 0..n {
-        sweep_case(&mut ctx, 24, true);
+        sweep_case(&mut ctx, 24, true, false);
+    }
+    // near-lattice polygons with ulp perturbations and nearly retraced twins (ids after everything else)
+    let n = ctx.n(400, 60000);
+    for _ in 0..n {
+        sweep_case(&mut ctx, 24, false, true);
     }
     ctx.finish();
 }
